@@ -184,6 +184,8 @@ class Enumerator(object):
     def has_ctl(self, node):
         for n in H.walk_outside_closures(node):
             if n.get('k') in ('If', 'Match', 'Ret', 'Loop', 'Break', 'Continue') and not (n.get('k') == 'Match' and n.get('src') == 'Try'):
+                if n.get('k') == 'Match' and n.get('tail_of') and S.is_propagate_match(n):
+                    continue  # the inner level of a nested Ok(Ok(..)) / Ok(Err(..)) match: a `?` like its outer level
                 return True
         return False
 
@@ -196,6 +198,8 @@ class Enumerator(object):
             return self.run(node['e'], path)
         if k == 'Block':
             return self.block(node, path)
+        if k == 'Match':
+            node = H.nest_result_match(node)
         if (k == 'Match' and S.is_propagate_match(node) and not any(self.has_ctl(a['body']) for a in node['arms'] if not self.ev.block_diverges(a['body']))
                 and not self.has_ctl(node['scrut'])) or (k == 'If' and S.is_propagate_iflet(node) and not self.has_ctl(node['cond']['init'])):
             # the explicit spelling of `?`: one path, read like the operator form
@@ -654,6 +658,7 @@ def table(ctx, fnpath, param_names=None):
     en.root_fn = fnpath
     en.ev.mutated = dict(en.ev.mutated_locals(fnpath, fn))
     en.ev.tracked = en.ev.trackable_locals(fn, True)
+    en.ev.tail_sps = en.ev.tail_positions(fn.get('hir', {}))
     for lid in en.ev.tracked:
         en.ev.mutated.pop(lid, None)
     for i, prm in enumerate(fn.get('params', [])):
